@@ -275,6 +275,9 @@ func monC05(x *Ctx) {
 					}
 				}
 				results[variant.name+"/"+target] = x.DumpStruct(q, dumpOpt{NF: true})
+				// the caller owns the result: it writes into the empty maps it got back (a later call
+				// must not hand the same map out again)
+				x.Count("returned-empty-maps-written-to", poisonEmptyMaps(reflect.ValueOf(q), 0))
 			}
 		}
 		// the payload under a null / unknown flag never matters
@@ -356,4 +359,45 @@ func dumpShape(v interface{}) interface{} {
 // sigOf hashes a canonical tree into a short signature.
 func sigOf(v interface{}) string {
 	return fmt.Sprintf("%016x", hashStr(14695981039346656037, fmt.Sprintf("%v", v)))
+}
+
+// poisonEmptyMaps stores one entry into every non-nil empty map reachable from v and returns how many it found.
+func poisonEmptyMaps(v reflect.Value, depth int) int {
+	if depth > 12 || !v.IsValid() {
+		return 0
+	}
+	n := 0
+	switch v.Kind() {
+	case reflect.Ptr, reflect.Interface:
+		if !v.IsNil() {
+			n += poisonEmptyMaps(v.Elem(), depth+1)
+		}
+	case reflect.Struct:
+		if v.Type() == timeType {
+			return 0
+		}
+		for i := 0; i < v.NumField(); i++ {
+			if v.Type().Field(i).PkgPath == "" {
+				n += poisonEmptyMaps(v.Field(i), depth+1)
+			}
+		}
+	case reflect.Slice:
+		if v.Type().Elem().Kind() != reflect.Uint8 {
+			for i := 0; i < v.Len(); i++ {
+				n += poisonEmptyMaps(v.Index(i), depth+1)
+			}
+		}
+	case reflect.Map:
+		if v.IsNil() {
+			return 0
+		}
+		if v.Len() == 0 && v.Type().Key().Kind() == reflect.String {
+			v.SetMapIndex(reflect.ValueOf("written-by-the-caller").Convert(v.Type().Key()), reflect.Zero(v.Type().Elem()))
+			return 1
+		}
+		for _, k := range v.MapKeys() {
+			n += poisonEmptyMaps(v.MapIndex(k), depth+1)
+		}
+	}
+	return n
 }
